@@ -4,6 +4,7 @@ mod fakecli;
 mod frame;
 mod fuzz;
 mod hello;
+mod logs;
 mod memtransport;
 mod meta;
 mod reply;
@@ -52,6 +53,7 @@ fn main() {
         "ser" => ser::main(&opts),
         "plan" => plan::main(&opts),
         "build" => build::main(&opts),
+        "logs" => logs::main(&opts),
         _ => {
             eprintln!("unknown op {op}");
             std::process::exit(2);
